@@ -9,7 +9,7 @@ import (
 	"verifsim/ref"
 )
 
-var cmdIDs = []uint16{0x8103, 0x8104, 0x8801, 0x9101, 0x9102, 0x9205, 0x9206}
+var cmdIDs = []uint16{0x8103, 0x8104, 0x8801, 0x9101, 0x9102, 0x9205, 0x9206, 0x8300, 0x8105, 0x8202}
 
 // callsOpts shapes the command scenario shared by C12, C13 and C18.
 type callsOpts struct {
